@@ -12,8 +12,12 @@ def plans(tier):
         return P
     P = []
     for st in S:
-        P.append(("pool4-" + st, pc.consts([st], N=4, N0=3, weight="W111" if st == "weighted_round_robin" else "W2101", win=1, passive=False, admin=True, badops=True, clients=(1, 2), outcomes=("ok",))))
-    P.append(("switch", pc.consts(S, N=3, N0=2, weight="W321", win=1, passive=False, mark=True, admin=True, badops=True, clients=(1,), outcomes=("ok",))))
+        if st == "weighted_round_robin":
+            P.append(("pool3-" + st, pc.consts([st], N=3, N0=3, weight="W111", win=1, passive=False, admin=True, badops=True, clients=(1,), outcomes=("ok",))))
+        else:
+            P.append(("pool4-" + st, pc.consts([st], N=4, N0=3, weight="W2101", win=1, passive=False, admin=True, badops=True, clients=(1, 2), outcomes=("ok",))))
+    P.append(("switch", pc.consts(S, N=2, N0=1, weight="W321", win=1, passive=False, mark=True, admin=True, badops=True, clients=(1, 2), outcomes=("ok",))))
+    P.append(("switch3", pc.consts(["round_robin", "ip_hash_consistent"], N=3, N0=2, weight="W111", win=1, passive=False, mark=True, admin=True, clients=(1,), outcomes=("ok",))))
     P.append(("switch-hold", pc.consts(S, N=2, N0=2, weight="W321", win=1, passive=False, mark=True, admin=True, maxhold=1, clients=(1,), outcomes=("ok", "hold"))))
     return P
 
